@@ -527,6 +527,71 @@ def second_application_experiment(env, order, pb):
     return P
 
 
+def shared_socket_wrong_sender_first(env, order, pb):
+    """a repeater R uses ONE local socket id (0, the SDK default) towards both neighbours A and B (all remote socket ids 0).  R asks for a pair
+    from A first and then for a pair from B; B happens to create BEFORE A.  Returns None when both of R's requests complete with matched pairs,
+    else a description (R's first request never completes: its only poll took B's half, which matches no request yet; A's half is never polled)."""
+    from netqasm.backend.messages import InitNewAppMessage, OpenEPRSocketMessage
+    from netqasm.sdk.shared_memory import SharedMemoryManager
+    SharedMemoryManager.reset_memories()
+    env.clock.stopped = False
+    names = list(order)
+    if pb:
+        import net_pb
+        net = net_pb.make_pb_network(env, names, [12] * 3, [12] * 3)
+    else:
+        net = N.make_network(env, names, [12] * 3, [12] * 3)
+    Q.make_hosts(env, net, pb_local=pb)
+    ids = Q.node_ids(names)
+    A, R, B = 0, 1, 2
+    idA, idR, idB = ids[names[A]], ids[names[R]], ids[names[B]]
+
+    def pump(pend, rounds=300):
+        for _ in range(rounds):
+            if pb:
+                import net_pb
+                net_pb.flush(net)
+            if all(p.done for p in pend):
+                return True
+            calls = env.clock.getDelayedCalls()
+            if calls:
+                env.clock.advance(max(min(c.getTime() for c in calls) - env.clock.seconds(), 0.0) + 1e-6)
+        return all(p.done for p in pend)
+    Q.script_coins(env, [0, 1] * 16, len(env.tap))
+    try:
+        for node in (A, R, B):
+            if not pump([EP.start(net.hosts[node], InitNewAppMessage(app_id=0, max_qubits=10))]):
+                return "InitNewApp did not complete"
+        for node, rid in [(A, idR), (B, idR), (R, idA), (R, idB)]:
+            if not pump([EP.start(net.hosts[node], OpenEPRSocketMessage(app_id=0, epr_socket_id=0, remote_node_id=rid, remote_epr_socket_id=0, min_fidelity=100))]):
+                return "OpenEPRSocket did not complete"
+        r_from_a = EP.start(net.hosts[R], _text_msg(_recv_keep(idA, 0, 0, 0)))       # R: first subroutine, a pair from A
+        b_creates = EP.start(net.hosts[B], _text_msg(_create_keep(idR, 0, 0, 0)))    # B is quicker than A
+        if not pump([b_creates]):
+            return "B's creation did not complete"
+        for _ in range(10):
+            pump([], 1)
+            calls = env.clock.getDelayedCalls()
+            if calls:
+                env.clock.advance(max(min(c.getTime() for c in calls) - env.clock.seconds(), 0.0) + 1e-6)
+        a_creates = EP.start(net.hosts[A], _text_msg(_create_keep(idR, 0, 0, 0)))
+        if not pump([a_creates]):
+            return "A's creation did not complete"
+        done_a = pump([r_from_a], 200)
+        if not done_a:
+            ex = net.hosts[R].executor
+            return ("repeater %s (socket 0 towards %s and %s): its request for a pair from %s never completes although %s has created the pair — its poll took the "
+                    "half %s had sent earlier, which matches no request yet (%d pending response(s)), and %d half(s) stay unpolled in the queue of socket 0"
+                    % (names[R], names[A], names[B], names[A], names[A], names[B], len(ex._pending_epr_responses),
+                       len(getattr(net.nodes[R], "qubit_recv_epr", {}).get(0, []))))
+        r_from_b = EP.start(net.hosts[R], _text_msg(_recv_keep(idB, 0, 1, 3)))
+        if not pump([r_from_b], 200):
+            return "repeater's second request (from %s) never completes" % names[B]
+        return None
+    finally:
+        Q.script_coins(env, None, 0)
+
+
 def O_close(a, b):
     import numpy as np
     return a.shape == b.shape and np.allclose(a, b, atol=1e-8)
@@ -625,6 +690,11 @@ def run(ctx, only_extra=False):
             ctx.case(("shared-socket-id", tuple(order), pb), nontrivial=True)
             if ps:
                 occ.append((9, order, pb, ps))
+        wrong_sender = None
+        if not hung:
+            wrong_sender = shared_socket_wrong_sender_first(env, ["Na", "Nb", "Nc"], False)
+            ctx.count("shared_socket_wrong_sender_first_experiments")
+            ctx.case(("shared-socket-wrong-sender-first",), nontrivial=True)
         for order, pb in ((["Na", "Nb"], False), (["Nb", "Na"], True)):
             if hung:
                 break
@@ -714,7 +784,17 @@ def run(ctx, only_extra=False):
             found = True
         else:
             ctx.broken_explained_by_known = True
-    if not (seen - {"C08:seq-collision-opposite-directions"}):
+    if wrong_sender is not None:
+        key = "C08:shared-socket-id-other-sender-first"
+        seen.add(key)
+        ctx.obligation("oracle %s" % key, False, wrong_sender)
+        if ctx.report(key, wrong_sender, {"experiment": "shared_socket_wrong_sender_first", "configuration_order": ["Na", "Nb", "Nc"],
+                                          "script": "R opens socket 0 -> A and socket 0 -> B (remote socket ids 0); R: recv_keep(1) from A; B: create_keep(1) with R; "
+                                                    "then A: create_keep(1) with R; R's request never completes"}, found_input=True):
+            found = True
+        else:
+            ctx.broken_explained_by_known = True
+    if not (seen - {"C08:seq-collision-opposite-directions", "C08:shared-socket-id-other-sender-first"}):
         ctx.obligation("oracle: pairing, |Phi+> state, measure-directly outcomes, per-direction sequence numbers, halves survive the creator's stop", True)
     # ---- measure-directly pairs: model = implementation, message by message -----------------------------------------------------------------
     md_found = [(r, F.judge(r)) for r in md_runs]
@@ -736,5 +816,5 @@ def run(ctx, only_extra=False):
                       dict(F.replay_obj(r), first_disagreeing_message=i), found_input=False):
             found = True
     # (the end-to-end half of C12 runs under ./check C12, see props/c12.py)
-    if not agree and not found and not seen:
+    if not agree and not found and not (seen - {"C08:shared-socket-id-other-sender-first"}):
         ctx.report("correspondence:C08", "keyed sequence/FIFO model and implementation disagree", {"broken": ctx.broken()}, found_input=False)
